@@ -221,12 +221,12 @@ var propSpecs = []propSpec{
 	{
 		id: "C19",
 		runs: []runSpec{
-			{dir: "mux", entry: "ZZC19", quick: []int{13, 23, 112, 122}, thorough: []int{13, 24, 113, 124}},
+			{dir: "mux", entry: "ZZC19", quick: []int{13, 23, 112, 122}, thorough: []int{13, 24, 33, 113, 124}},
 			{dir: "mux", entry: "ZZC19Verbs", quick: []int{2}, thorough: []int{3}},
 		},
 		covers:  []string{"program", "facade-route-reached", "verbs"},
 		bounds:  "every program of <= 2 facade calls from 14 (incl. a cleaned prefix that is itself a parameter route, a Resource object that outlives its route, a Prefix object created before a Use), on an empty table and on one with five literal siblings next to a parameter route (Prefix with middlewares, empty Prefix, a Prefix ending inside a {..} token, nested Prefix.Prefix + Any, Resource Get/Delete, Prefix.Resource Put, Prefix.Resource.Remove, Prefix.Clean, a nested Prefix.Clean whose prefix reaches into a parameter segment, Resource.Clean, nested Prefix.Remove with a method list) run through the facades on one router and desugared into plain Router calls on a second one; compared: Routes(), the table model, the same symbolic request (path <= 3 bytes x 6 methods: handler, pattern, parameters, middleware chain, status, Allow), Prefix.URL / Resource.URL / nested Prefix.URL vs Router.URL in both modes with a symbolic value; every verb shorthand (Get/Post/Delete/Put/Patch/Any/Handle) of Router, Prefix and Resource against the explicit Handle call on 7 patterns x 8 methods with a symbolic parameter value",
-		boundsT: "programs of <= 2 calls, probe paths <= 4 bytes",
+		boundsT: "programs of <= 2 calls with probe paths <= 4 bytes, programs of 3 calls on the empty table with probe paths <= 3 bytes",
 		outside: "longer programs; other prefixes",
 		stubs:   stdStubs,
 	},
